@@ -77,6 +77,9 @@ def gen_input_schema(rng, n_inputs=None, one_of=True):
             fields.append(["leaf", T("Int")])
         s.types[n]["fields"] = fields
         s.types[n]["one_of"] = one
+        if not one:
+            from .gen_schema import input_defaults
+            s.types[n]["defaults"] = input_defaults(s, fields, rng)
     s.add("Query", {"kind": "object", "implements": [], "fields": [{"name": "ping", "type": T("Int"), "args": [], "deprecated": None}]})
     s.add("Mutation", {"kind": "object", "implements": [], "fields": [{"name": "pong", "type": T("Boolean"), "args": [], "deprecated": None}]})
     s.roots["mutation"] = "Mutation"
